@@ -188,7 +188,7 @@ def run_job(job, io):
     from collections import OrderedDict
     from optsim.scenario import walk
     od_keys = {id(k) for root in (scn.tree, scn.tree2, scn.prefix, scn.other) for x in walk(root)
-               if isinstance(x, OrderedDict) for k in dict.keys(x)}
+               if isinstance(x, OrderedDict) for k in dict.keys(x)}  # identity set: order irrelevant
     del base2, events2
     K = n_events
     ks = list(range(1, K + 1))
